@@ -396,6 +396,7 @@ def oblige_uniform(S, kind, D, ref):
     authentication of the cursor token answers."""
     for cls in CLASSES:
         S.inputs["scenario"] = f"{kind}:{cls}"
+        S.cur_site = f"{KINDS[kind]['open'].__name__}: rejection of a {cls.replace('_', ' ')} token"
         S.oblige(f"O7.uniform.{cls}_indistinguishable_from_a_failed_cursor_authentication", same_detail(D[cls], ref), kind="post", witness=f"{kind}:{cls}")
     S.inputs.pop("scenario", None)
 
@@ -1002,6 +1003,13 @@ def hook(S, name, *args, exc=RuntimeError):
         raise PyRaise(SExc(exc, (f"{name} failed",)))
 
 
+def report_created_at(S, out_params, created_at):
+    """Some trees let _open_call_token report the token's created_at through an out-parameter list."""
+    out = out_params.get("created_at_out")
+    if out is not None:
+        out.append(created_at)
+
+
 def install_token_openers(S, cursor_outcomes=("accept", "reject"), call_outcomes=("accept", "reject")):
     """_open_cursor_token / _open_call_token by contract (units O4b/O5/O7 + the assumed AEAD): HTTP 400, or the
     fields of a plaintext sealed under the same key and AAD (ghost witness recorded in the event)."""
@@ -1014,12 +1022,13 @@ def install_token_openers(S, cursor_outcomes=("accept", "reject"), call_outcomes
         S.event("open_cursor_ok", token, token_key, aad, token_ttl, state_bytes, call_id)
         return (state_bytes, call_id)
 
-    def open_call(S, token, token_key, aad, token_ttl=0):
+    def open_call(S, token, token_key, aad, token_ttl=0, **out_params):
         S.event("open_call", token, token_key, aad, token_ttl)
         if call_outcomes[S.choose(len(call_outcomes))] == "reject":
             raise PyRaise(rpc_400("token rejected"))
         r = (S.bytes("call_state_bytes"), S.str("call_state_type"), S.bytes("schema_bytes"), S.bytes("input_schema_bytes"), S.bytes("token_call_id"), S.str("stream_id"))
         S.event("open_call_ok", token, token_key, aad, token_ttl, r)
+        report_created_at(S, out_params, S.int("call_token_created_at"))
         return r
 
     S.handlers["_open_cursor_token"] = open_cursor
@@ -1121,9 +1130,42 @@ def check_resolution_order(S, trace, app_key, app_ttl, auth, token, call_token, 
     return ok, call_ok, puts
 
 
+def native_aad(fn, auth, extras):
+    params = inspect.signature(fn).parameters
+    return fn(auth, **{n: v for n, v in extras.items() if n in params})
+
+
+def replay_cross_stream(inputs, ob):
+    """A genuine cursor token of one stream paired with the genuine call token of another (cold cache)."""
+    from vgi_rpc.utils import IpcValidation
+
+    key = bytes(32)
+    extras = {"method_name": "m"}  # native_invoke passes "m" for any extra required parameter
+
+    class Srv:
+        ipc_validation = IpcValidation.NONE
+        implementation = None
+
+    class App:
+        _token_key = key
+        _token_ttl = 0
+        _call_state_cache = st._CallStateCache()
+        _server = Srv()
+
+    cur = st._seal_cursor_token(b"state", b"A" * 16, key, native_aad(st._compute_aad, None, extras), 0)
+    call = st._seal_call_token(b"", "", b"sch", b"in", b"B" * 16, "sid", key, native_aad(st._compute_call_aad, None, extras), 0)
+    try:
+        native_invoke(aps._unpack_and_recover_state, App(), cur, call, object, None)
+    except Exception as e:
+        got, ref = py_detail(e), py_scenario("cursor", "failed_authentication")
+        return ReplayResult(got != ref, f"cursor token of stream A with the call token of stream B: the client sees {got}; a cursor token failing authentication gives {ref}")
+    return ReplayResult(True, "a cross-stream token pair was accepted")
+
+
 @unit(
     "C12.O6 resolution order in _unpack_and_recover_state; O7 every rejection is HTTP 400",
     targets=["vgi_rpc/http/server/_app_stream.py::_unpack_and_recover_state", "vgi_rpc/http/server/_app_stream.py::_resolve_call_from_token"],
+    replay=replay_cross_stream,
     min_obligations=200,
     max_paths=3000,
 )
@@ -1393,14 +1435,10 @@ def exchange_order(S):
 # Shared with C13 (which states the method clause on the same harness).
 # ------------------------------------------------------------------------------------------
 
-IDENT = z3.Concat(
-    z3.Union(z3.Range("a", "z"), z3.Range("A", "Z"), z3.Re("_")),
-    z3.Star(z3.Union(z3.Range("a", "z"), z3.Range("A", "Z"), z3.Range("0", "9"), z3.Re("_"))),
-)
-
-
-def is_identifier(s):
-    return SBool(z3.InRe(s.t, IDENT))
+def is_method_name(s):
+    """Stream method names are Python identifiers; all the binding argument needs from that is: non-empty and
+    NUL-free (a superset, so the proof covers more than the property asks and stays free of regex reasoning)."""
+    return And(nul_free(s), s.length() > 0)
 
 
 def mint_then_exchange(S, shapes=("none", "dp"), vary=True, same_shape=False, on_accept=None):
@@ -1408,7 +1446,7 @@ def mint_then_exchange(S, shapes=("none", "dp"), vary=True, same_shape=False, on
     install_clock(S)
     quiet_hooks(S)
     m1, m2 = S.str("minting_method"), S.str("exchange_method")
-    S.assume(And(is_identifier(m1), is_identifier(m2)))  # stream methods are Python identifiers
+    S.assume(And(is_method_name(m1), is_method_name(m2)))
     sh1 = shapes[S.choose(len(shapes))]
     a1, i1 = mk_auth(S, "1", sh1)
     a2, i2 = mk_auth(S, "2", sh1 if same_shape else shapes[S.choose(len(shapes))])
@@ -1462,11 +1500,12 @@ def mint_then_exchange(S, shapes=("none", "dp"), vary=True, same_shape=False, on
         S.event("open_cursor_rejected", token, token_key, aad, token_ttl)
         raise PyRaise(rpc_400("token rejected"))
 
-    def open_call(S, token, token_key, aad, token_ttl=0):
+    def open_call(S, token, token_key, aad, token_ttl=0, **out_params):
         S.event("open_call", token, token_key, aad, token_ttl)
         if token is ktok and S.fork(And(eq(token_key, kkey), eq(aad, kaad))):
             r = (kcs, "", S.bytes("schema_bytes_out"), S.bytes("schema_bytes_in"), kcall_id, ksid)
             S.event("open_call_ok", token, token_key, aad, token_ttl, r)
+            report_created_at(S, out_params, kcreated)
             return r
         raise PyRaise(rpc_400("token rejected"))
 
@@ -1474,9 +1513,10 @@ def mint_then_exchange(S, shapes=("none", "dp"), vary=True, same_shape=False, on
     S.handlers["_open_call_token"] = open_call
     S.inline.update({"_compute_aad", "_compute_call_aad"})
     R["W"] = install_recovery_world(S)
-    S.ghost["is_producer"] = vary and S.choose(2) == 1
-    cancel = vary and S.choose(2) == 1
-    with_call_token = not vary or S.choose(2) == 0
+    # request shapes: exchange turn / producer continuation / cancel, with and without the echoed call token
+    shapes_b = [(False, False, True), (True, False, True), (False, True, True), (False, False, False), (True, True, False)]
+    is_prod, cancel, with_call_token = shapes_b[S.choose(len(shapes_b))] if vary else shapes_b[0]
+    S.ghost["is_producer"] = is_prod
     S.inputs.update(is_producer=S.ghost["is_producer"], cancel=cancel, with_call_token=with_call_token)
     R["out"] = run_exchange(S, app, m2, ctok, ktok if with_call_token else None, cancel)
     R["trace_b"] = S.trace[start:]
